@@ -20,7 +20,15 @@ def touched(step):
     return None
 
 
-def boundary_event(toks, a, b):
+def inside(y, lo, hi):
+    """the range y has content in common with the node whose opening / closing tokens are lo / hi
+    (an empty range: lies inside it)"""
+    if y[0] == y[1]:
+        return lo < y[0] <= hi
+    return y[0] < hi and y[1] > lo + 1
+
+
+def boundary_event(toks, a, b, steps=None):
     """ghost event: step A rewrites the opening (or closing) token of a node that contains
     step B's range -- the two are then coupled through the schema although their tokens are
     separated"""
@@ -37,8 +45,28 @@ def boundary_event(toks, a, b):
         for i in range(x[0], min(x[1], len(toks))):
             if i in match:
                 lo, hi = sorted((i, match[i]))
-                if lo <= y[0] and y[1] <= hi + 1 and not (x[0] <= match[i] < x[1]):
+                if inside(y, lo, hi) and not (x[0] <= match[i] < x[1]):
                     return ["rewrites-boundary-of-enclosing-node"]
+    # the same coupling by *insertion*: a replace step whose slice is open inserts unmatched closing /
+    # opening tokens, i.e. it splits the nodes around its position (as many levels as the slice is open)
+    # and the part after the split gets the type the slice says; the other step edits content of a node
+    # that is split that way
+    for (x, sx), y in (((a, steps[0]), b), ((b, steps[1]), a)) if steps else ():
+        sl = getattr(sx, "slice", None)
+        if sl is None or not (sl.open_start > 0 or sl.open_end > 0):
+            continue
+        anc = []  # enclosing nodes of position x[0], innermost last
+        st2 = []
+        for i, t in enumerate(toks[: x[0]]):
+            if t[0] == "open":
+                st2.append(i)
+            elif t[0] == "close":
+                st2.pop()
+        anc = [(i, match[i]) for i in st2]
+        k = max(sl.open_start, sl.open_end)
+        for lo, hi in anc[len(anc) - k:] if k else []:
+            if inside(y, lo, hi):
+                return ["splits-enclosing-node-with-open-slice"]
     return []
 
 
@@ -86,7 +114,7 @@ def run(tier, seed, findings):
                     if not (a[1] < b[0] or b[1] < a[0]):
                         continue
                     call = dict(fn="commute", schema=name, doc=D.doc_json(doc), a=step_json(s1), b=step_json(s2))
-                    ev = boundary_event(orc.tokens(doc), a, b)
+                    ev = boundary_event(orc.tokens(doc), a, b, (s1, s2))
                     rec.case(("pair", name, orc.canon_json(call)), sample=dict(schema=name, doc=str(doc), a=d1, b=d2))
                     try:
                         s2m = s2.map(s1.get_map())
